@@ -184,6 +184,9 @@ func runMTLSCase(c mtCase, bin, tmp string) map[string]interface{} {
 		if c.Impostor == "nocert" {
 			mode = "nocert" // announces no certificate, serves in plaintext
 		}
+		if c.Impostor == "chain" {
+			mode = "chain" // announces X, serves with its own key pair Y and appends X to the chain it presents
+		}
 		extra = append(extra, "VPLUGIN_IMPOSTOR="+mode)
 	}
 	p := vp.NewPair(bin, hc, pc, extra, nil)
